@@ -40,5 +40,7 @@ Lemma store_primitives : memory_store_has_Incr_and_SetNX = true /\ hybrid_index_
   hybrid_mapping_is_shared_persistent = true /\ implb delete_is_guarded hybrid_removal_guard_is_shared = true /\
   hybrid_incr_is_get_then_set = false /\
   (* C19_delete_success_frees_name_under_faults needs the index entry to be deleted before the record *)
-  implb delete_is_guarded delete_index_before_record = true.   (* since d88dca0 hybrid.Storage.Incr delegates to its cache tier's atomic IncrBy *)
+  implb delete_is_guarded delete_index_before_record = true /\
+  (* C19_faulted_lookup_is_rejected: a failed repository read ends the lookup *)
+  lookup_error_stops = true.   (* since d88dca0 hybrid.Storage.Incr delegates to its cache tier's atomic IncrBy *)
 Proof. vm_compute. auto 10. Qed.
